@@ -93,6 +93,8 @@ Pre(s, op, a) ==
     [] op \in {"item_imul", "item_idiv"} -> s.RS.kind \in {"parallel", "series"} /\ a.i \in DOMAIN s.RS.items /\ RLt(Zero, a.q)
     [] op = "set_assign_X" -> s.RS.kind \in {"parallel", "series"} /\ Len(a.Xs) = Len(s.RS.items)
     [] op = "reduce" -> s.RS.kind = "parallel"
+    \* copying a reaction set, optionally re-based (a.basis: "none", "wt", "mol"): a new set, the original untouched
+    [] op = "set_copy" -> s.RS.kind \in {"parallel", "series"}
     \* the same reaction re-based to weight (its molar meaning is unchanged)
     [] op \in {"to_wt", "to_mol"} -> {a.d, a.x} \subseteq Slots /\ IsRxn(s.Rx[a.x])
     [] OTHER -> FALSE
@@ -123,7 +125,7 @@ Post(s, op, a) ==
     [] op = "item_imul" -> [s EXCEPT !.RS.items[a.i].X = RMul(@, a.q)]
     [] op = "item_idiv" -> [s EXCEPT !.RS.items[a.i].X = RMul(@, RInv(a.q))]
     [] op = "set_assign_X" -> [s EXCEPT !.RS.items = [i \in DOMAIN s.RS.items |-> [s.RS.items[i] EXCEPT !.X = a.Xs[i]]]]
-    [] op = "reduce" -> s
+    [] op \in {"reduce", "set_copy"} -> s
     [] op \in {"to_wt", "to_mol"} -> [s EXCEPT !.Rx[a.d] = s.Rx[a.x]]
 
 ---------------------------------------------------------------------------
@@ -163,6 +165,8 @@ Judge(s, e) ==
      ELSE IF e.obs.exc # None THEN "exception"
      ELSE IF ~e.obs.held_agree THEN "set_item_out_of_sync"       \* items obtained earlier and the set disagree on a conversion
      ELSE IF e.op = "reduce" /\ e.obs.reduced_m # ApplyParallel(s.RS.items, s.m) THEN "reduce.not_equivalent"
+     ELSE IF e.op = "set_copy" /\ e.obs.reduced_m # ApplySet(s.RS, s.m) THEN "copy.not_equivalent"
+     ELSE IF e.op = "set_copy" /\ e.obs.same THEN "result_is_operand"
      ELSE IF u.m # p.m THEN "feed_changed"
      ELSE IF \E x \in Slots : x \notin Touched(e) /\ u.Rx[x] # s.Rx[x] THEN "operand_changed"
      ELSE IF u.Rx # p.Rx THEN
